@@ -35,6 +35,11 @@ Allowed rewrites (each is logged per function and reported in the evidence):
       text's bytes (assumed contract: for ASCII text, byte i = character i); same bytes, same order
   R13 `for (i, v) in <place>.iter().enumerate() {` -> `for i in 0..<place>.len() { let v = &<place>[i];` (<place> = path of
       fields; borrowed immutably by the original loop for its whole duration, so the same elements in the same order)
+  R14 (only where the template says `//@fmttoks`) `format!(lit, a, b..)` / `"lit".to_owned()` as the argument of out.code.push /
+      out.data.push -> verif_io::fmt_toks(Ghost(T)) where T is the token view of the text: the literal cut into tokens by the
+      extractor (blanks separate; identifier runs and single punctuation characters are tokens) interleaved, in order, with
+      toks(x@) for a String argument x and dec_tok(n) for an integer argument n.  An argument that touches an identifier
+      character of the literal or another argument cannot be tokenised this way => out of reach (exit 2).
   R10 a local variable named `int` (a Verus builtin type name) is renamed `int_no`
   R9 print arguments: a slice of the source text `&x[a..b]` is logged as an opaque value (its rendering, and the slicing
      itself, are NOT checked); an identifier named by `//@str <ident>` is a String and is logged as verif_io::str_id(&ident)
@@ -57,6 +62,56 @@ class Extractor:
         self.rewrites: List[str] = []
         self.functions: List[str] = []
         self.literals: List[str] = []     # print literals, index = K
+        self.lit_tokens: List[str] = []   # literal tokens of emitted texts (R14), index = id of lit_tok(id)
+
+    # ------------------------------------------------------------------ token views (R14)
+    def tok_expr(self, units) -> str:
+        """units: [("L", token text) | ("P", String variable) | ("N", integer variable)] -> Verus expression of type Seq<Seq<char>>.
+        The same function renders what the code emits (from its format! template) and what the contract demands (from the
+        production's signature), so equal unit lists give the same term."""
+        e = "Seq::<Seq<char>>::empty()"
+        for k, v in units:
+            if k == "L":
+                if v not in self.lit_tokens:
+                    self.lit_tokens.append(v)
+                e += f".push(lit_tok({self.lit_tokens.index(v)}))"
+            elif k == "P":
+                e += f".add(toks({v}@))"
+            else:
+                e += f".push(dec_tok({v} as int))"
+        return e
+
+    @staticmethod
+    def lit_units(piece: str):
+        """tokens of a literal piece: identifier runs and single punctuation characters; blanks only separate"""
+        return [("L", t) for t in re.findall(r"[A-Za-z0-9_]+|[^\sA-Za-z0-9_]", piece)]
+
+    def fmt_units(self, lit: str, args, ptypes, what):
+        """format literal + argument names -> unit list; Undecided where token boundaries are not visible in the template"""
+        body = lit[1:-1]
+        if "\\" in body or "{{" in body or "}}" in body:
+            raise Undecided(f"{what}: format literal with escapes: outside rewrite R14")
+        pieces = body.split("{}")
+        if len(pieces) != len(args) + 1 or re.search(r"[{}]", "".join(pieces)):
+            raise Undecided(f"{what}: format literal {lit} with other than plain {{}} placeholders: outside rewrite R14")
+        units = []
+        for i, pc in enumerate(pieces):
+            if i > 0:
+                a = args[i - 1]
+                if not re.fullmatch(r"\w+", a) or a not in ptypes:
+                    raise Undecided(f"{what}: format argument `{a}` is not a parameter of the production: outside rewrite R14")
+                prev = pieces[i - 1]
+                if (prev and re.search(r"[A-Za-z0-9_]$", prev)) or (prev == "" and i > 1) or (pc and re.match(r"[A-Za-z0-9_]", pc)):
+                    raise Undecided(f"{what}: argument `{a}` touches an identifier character or another argument in {lit}: token boundaries not visible (R14)")
+                ty = ptypes[a].replace("&", "").strip()
+                if ty in ("String", "str"):
+                    units.append(("P", a))
+                elif ty in ("u8", "i8", "u16", "i16", "u32", "i32", "usize"):
+                    units.append(("N", a))
+                else:
+                    raise Undecided(f"{what}: format argument `{a}` of type {ty}: outside rewrite R14")
+            units += self.lit_units(pc)
+        return units
 
     def text(self, rel: str) -> str:
         if rel not in self.cache:
@@ -190,6 +245,8 @@ class Extractor:
                 body = body[:i] + "verif_io::str_bytes_vec(" + body[i + 1:j] + ").into_iter()" + body[j + len(").bytes()"):]
                 n += 1
             self.rewrites.append(f"{rel}: `{sig}`: R12 {n} `(..).bytes()` -> verif_io::str_bytes_vec(..).into_iter() (the same bytes in the same order, ASCII text)")
+        if opts is not None:
+            opts["_ptypes"] = {prm.partition(": ")[0].strip(): prm.partition(": ")[2].strip() for prm in params}
         return self._assemble(fsig, contract, body, loops, f"{rel}::[{sig}]", opts)
 
     @staticmethod
@@ -299,6 +356,24 @@ class Extractor:
         body2 = replace_macro(body, ("println", "print"), pr)
         if body2 != body:
             body = body2
+
+        if opts.get("fmttoks"):
+            ptypes = opts.get("_ptypes", {})
+            def push_arg(mm):
+                arg = mm.group(2).strip()
+                fmm = re.fullmatch(r'format!\(\s*("(?:[^"\\]|\\.)*")\s*(?:,(.*))?\)', arg, re.S)
+                if fmm:
+                    args = [x.strip() for x in split_top(fmm.group(2) or "")]
+                    units = self.fmt_units(fmm.group(1), args, ptypes, what)
+                elif re.fullmatch(r'"(?:[^"\\]|\\.)*"\.to_owned\(\)', arg):
+                    units = self.lit_units(arg[1:arg.rindex('"')])
+                elif re.fullmatch(r"\w+", arg) and ptypes.get(arg, "").replace("&", "").strip() == "String":
+                    return mm.group(0)          # the parameter itself is pushed: its own token view
+                else:
+                    raise Undecided(f"{what}: pushed text `{arg[:60]}` is neither format!(literal, parameters), a literal nor a parameter: outside rewrite R14")
+                self.rewrites.append(f"{what}: R14 {arg[:50]} -> fmt_toks (token view)")
+                return f"{mm.group(1)}verif_io::fmt_toks(Ghost({self.tok_expr(units)})));"
+            body = re.sub(r"(out\.(?:code|data)\.push\()(.*?)\);", push_arg, body, flags=re.S)
 
         def fm(m):
             self.rewrites.append(f"{what}: R3 format!")
@@ -476,7 +551,7 @@ def expand(template: str, ex: Extractor) -> str:
         if kind in ("fn", "action"):
             # collect contract block
             contract, loops = [], {}
-            opts = {"ghost": [], "after": [], "before": [], "str": [], "strslice": False, "dropunused": False}
+            opts = {"ghost": [], "after": [], "before": [], "str": [], "strslice": False, "dropunused": False, "fmttoks": False}
             j = i + 1
             if j < len(lines) and lines[j].strip().startswith("//@contract"):
                 j += 1
@@ -489,6 +564,8 @@ def expand(template: str, ex: Extractor) -> str:
                         opts["strslice"] = True
                     elif s == "//@dropunused":
                         opts["dropunused"] = True
+                    elif s == "//@fmttoks":
+                        opts["fmttoks"] = True
                     elif om and cur_loop is None:
                         if om.group(1) == "str":
                             opts["str"] += om.group(2).split()
